@@ -41,6 +41,8 @@ PROFILES = [
     Profile(max_events=18, min_events=6, gap_style="long", n_exchanges=2, n_holders=2, p_intra=0.3),
     Profile(max_events=16, min_events=5, gap_style="boundary", mixed_tz=True, tie_prob=0.3),
     Profile(max_events=16, min_events=5, gap_style="short", tie_prob=0.3),
+    # buy and hold: purchases, gifts received and fee-less transfers only - an asset without a single taxable event
+    Profile(max_events=12, min_events=4, gap_style="medium", p_in=0.6, p_out=0.0, p_intra=0.4, p_earn=0.0, p_intra_fee=0.0, p_in_fiat_fee=0.3, n_exchanges=3),
 ]
 
 
@@ -81,6 +83,12 @@ def _compare(ctx: Any, hist: Dict[str, Any], sched: Dict[int, str], unfiltered: 
     # things that reflect all history up to the to-date
     if balances_of(filtered) != balances_of(to_only):
         problems.append(("filter.balances-depend-on-from-date", {}))
+    if not inverted:
+        # ... and they are the flows of every account up to the to-date, also for an asset that has no taxable event at all
+        from rpv.oracle.balance import check_balances
+
+        for v in check_balances(model, balances_of(filtered), to_d)[:2]:
+            problems.append(("filter.balances-do-not-reflect-the-history-up-to-the-to-date", dict(v["detail"], clause=v["rule"])))
     if frac(filtered.price_per_unit) != frac(to_only.price_per_unit):
         problems.append(("filter.average-price-depends-on-from-date", {}))
     to_only_labels = {(e, l): rest for e, l, *rest in labels_of(to_only)}
